@@ -280,7 +280,12 @@ func RunC14(t *testing.T, registry map[int]func() (string, error), dataFile stri
 			build = registry[200000+c.ID]
 			r.Count("union_type_as_root")
 		}
+		// a fatal error (stack overflow inside the printer) kills the process: the journal names the grammar
+		jc := *c
+		jc.Text = c.G.String()
+		r.Journal(&jc, "Build / Parser.String() / ebnf round trip of an emitted grammar")
 		msg, sig := checkC14(r, c, build)
+		r.JournalDone()
 		if msg == "" {
 			continue
 		}
